@@ -27,6 +27,7 @@ type c04conn struct {
 type c04flow struct {
 	name   string
 	pre    string // prefix of every processor key (a referenced flow needs keys of its own)
+	skip   map[string]bool // own processors that are not defined (replaced by another flow's processor)
 	nReq   int // request filters p1..pn
 	nGen   int // early-response nodes g1..gm
 	nResp  int // response filters r1..rk
@@ -42,6 +43,9 @@ func (f *c04flow) def(url string) flowDef {
 	}
 	for i := 1; i <= f.nGen; i++ {
 		k := fmt.Sprintf("%sg%d", f.pre, i)
+		if f.skip[k] {
+			continue
+		}
 		d.Procs = append(d.Procs, procDef{Key: k, Type: "GenerateResponse", Params: [][2]string{{"status", fmt.Sprint(f.status[k])}, {"body", f.name + k}}})
 	}
 	for i := 1; i <= f.nResp; i++ {
@@ -100,7 +104,7 @@ func (f *c04flow) walk(conns []c04conn, node string, out func(node string) strin
 
 // c04isGen: an early-response node ("g1", or "lg1" in a referenced flow).
 func c04isGen(node string) bool {
-	return strings.HasPrefix(node, "g") || strings.HasPrefix(node, "lg")
+	return strings.HasPrefix(node, "g") || strings.HasPrefix(node, "lg") || strings.Contains(node, ".g")
 }
 
 // prefixed returns the flow with every processor key prefixed.
@@ -287,6 +291,27 @@ func runC04(s *kernel.Sim) {
 		y := f.def("a.com/g").YAML()
 		files["flows/"+f.name+".yaml"] = y
 		desc = append(desc, fmt.Sprintf("%s req=%v resp=%v", f.name, f.req, f.resp))
+	}
+	// cross-flow processor use (a third of the two-flow runs in which both flows
+	// have an early-response node): f0 refers to f1's processor g1 as "f1.g1"
+	// instead of having a g1 of its own
+	if !refShape && nFlows == 2 && flows[0].nGen >= 1 && flows[1].nGen >= 1 && tp.Chance(1, 3) {
+		f0 := flows[0]
+		f0.skip = map[string]bool{"g1": true}
+		for i := range f0.req {
+			if f0.req[i].to == "g1" {
+				f0.req[i].to = "f1.g1"
+			}
+		}
+		for i := range f0.resp {
+			if f0.resp[i].from == "g1" {
+				f0.resp[i].from = "f1.g1"
+			}
+		}
+		f0.status["f1.g1"] = flows[1].status["g1"]
+		files["flows/f0.yaml"] = f0.def("a.com/g").YAML()
+		desc[0] = fmt.Sprintf("%s req=%v resp=%v", f0.name, f0.req, f0.resp)
+		s.Knobs["cross_flow_processor"] = true
 	}
 	model := flows    // what the reference interpreter walks
 	steered := flows  // whose filters the steering headers address
